@@ -9,6 +9,7 @@ driver is accepted too (same parsers/printers, same state), so a resumed runner 
     ctx <now0> <now> <policy> <n> <tick>*n          context_from_ticks
     restart <now0> <now> <nowR> <start ev|_> <timeout|_> <policy> <n> <tick>*n   one handler of _on_server_start
     pick <registered> <active> <resuming runs> <rows>   which handlers _on_server_start acts on
+    persist <tick>                                  what is read back from the store for a processed tick
 -/
 open Engine
 
@@ -102,6 +103,10 @@ def step (d : RState) (line : String) : RState × String :=
       | .finalize f => (d, "finalize " ++ sFinal f)
       | .resume r => ({ d with eng := { d.eng with run := r, st := r.st } },
                       "resume " ++ sRunner r ++ " ;; " ++ sState d.eng.cfg r.st)
+    | _ => (d, "bad-op")
+  | "persist" :: ts =>
+    match tick ts with
+    | some (t, []) => (d, sTick t.persist)
     | _ => (d, "bad-op")
   | "pick" :: ts =>
     match (do let reg ← counted nat; let act ← counted nat; let res ← counted nat; let rows ← counted rowP
